@@ -88,7 +88,7 @@ def _replay_one(cfg, path, opts, ops):
                 cancelled = True
             obs = real.step(s["act"], s["args"])
             bad = [f for f in real.FORMS if obs[f] != s["exp"]]
-            ctx_leak = s["act"] == "start" and real.caller_ctx != 1
+            ctx_leak = real.caller_ctx not in (None, 1)
             if bad or ctx_leak:
                 form = "ctx" if not bad else "+".join(bad)
                 fields = sorted({k for f in bad for k in ("log", "out") if obs[f][k] != s["exp"][k]})
@@ -186,13 +186,26 @@ def _trace_sig(t, bad, l):
             "sub_dec": bool(t.get("opts", {}).get("sub_dec"))}
 
 
-MC_THOROUGH = {"MaxBody": 2, "TopOps": '{"eff", "await1", "list", "moment", "sub2", "ret", "raise", "rdctx", "setctx"}'}
+MC_THOROUGH = {"MaxBody": 2, "TopOps": '{"eff", "await1", "moment", "ret", "setctx"}'}
 
-GEN_QUICK = {"TopOps": '{"eff", "await1", "ret"}', "MaxTop": 2, "MaxBody": 1,
-             "HOps": '{"none", "eff", "await2", "raise"}', "FOps": '{"none", "eff", "await2", "ret"}'}
-GEN_THOROUGH = {"TopOps": '{"eff", "await1", "await2", "list", "moment", "sub2", "ret", "raise", "setctx"}',
-                "MaxTop": 2, "MaxBody": 2, "HOps": '{"none", "eff", "await2", "ret", "raise"}',
-                "FOps": '{"none", "eff", "await2", "ret", "raise"}', "Outcomes": '{"ok", "exc", "cancel"}'}
+ALL_HF = '{"none", "eff", "await2", "ret", "raise"}'
+GEN_QUICK = [
+    {"TopOps": '{"eff", "await1", "ret"}', "MaxTop": 2, "MaxBody": 1,
+     "HOps": '{"none", "eff", "await2", "raise"}', "FOps": '{"none", "eff", "await2", "ret"}'},
+]
+GEN_CTX = {"TopOps": '{"moment", "setctx", "rdctx", "await1"}', "MaxTop": 4, "MaxTry": 0, "MaxBody": 1,
+           "BodyOps": '{"eff"}', "HOps": '{"none"}', "FOps": '{"eff"}'}
+GEN_THOROUGH = [
+    # every clause content, with cancellation of the awaited futures
+    {"TopOps": '{"eff", "await1", "ret"}', "MaxTop": 2, "MaxBody": 1, "HOps": ALL_HF, "FOps": ALL_HF,
+     "Outcomes": '{"ok", "exc", "cancel"}'},
+    # try bodies of two statements
+    {"TopOps": "{}", "MaxTop": 1, "MaxBody": 2, "HOps": ALL_HF, "FOps": ALL_HF,
+     "BodyOps": '{"eff", "await1", "await2", "list", "dict", "sub2", "sub3", "ret", "raise"}'},
+    # rich top level around a try statement
+    {"TopOps": '{"eff", "await1", "await2", "list", "moment", "sub2", "ret", "raise", "setctx"}', "MaxTop": 2,
+     "MaxBody": 1, "HOps": '{"none", "eff", "raise"}', "FOps": '{"none", "eff", "ret"}'},
+]
 
 
 def run(ctx):
@@ -203,11 +216,12 @@ def run(ctx):
            required_actions=["Start", "Complete"], timeout=ctx.pick(600, 1800))
     ctx._phase("mc", t0); t0 = time.time()
     # 2. spec -> code: every (program, schedule)
-    paths = futures_gen.gen_paths(ctx, "futures", "Gen_CoroLang", "Gen_CoroLang.cfg",
-                                  overrides=ctx.pick(GEN_QUICK, GEN_THOROUGH), timeout=ctx.pick(600, 1800))
-    ctx._phase("gen", t0); t0 = time.time()
-    ctx.replay(paths, replayer, nontrivial=lambda e, p: len(p) >= 2)
-    ctx._phase("replay", t0); t0 = time.time()
+    for ov in ctx.pick(GEN_QUICK, GEN_THOROUGH) + [GEN_CTX]:
+        paths = futures_gen.gen_paths(ctx, "futures", "Gen_CoroLang", "Gen_CoroLang.cfg", overrides=ov,
+                                      timeout=ctx.pick(600, 1800))
+        ctx._phase("gen", t0); t0 = time.time()
+        ctx.replay(paths, replayer, nontrivial=lambda e, p: len(p) >= 2)
+        ctx._phase("replay", t0); t0 = time.time()
     # nested try statements (flat programs: one nested try)
     nested = futures_gen.gen_paths(ctx, "futures", "Gen_CoroLang", "Gen_CoroLang.cfg",
                                    overrides={"TopOps": "{}", "MaxTop": 1, "MaxBody": 1, "Nest": "TRUE",
@@ -242,6 +256,10 @@ def run(ctx):
         sig["forms"] = "differ" if any(e["obs"]["dec"] != e["obs"]["nat"] for e in t["ev"]) else "dec+nat"
         ctx.violation(sig, {"trace": t, "caller_ctx": t["caller_ctx"]})
     ctx.validate("futures", "Trace_CoroLang", "Trace_CoroLang.cfg", traces, sig_fn=_trace_sig)
+
+    def corrupt(ev):
+        ev["obs"]["dec"]["log"] = ev["obs"]["dec"]["log"] + [{"t": "eff", "v": [77], "e": ""}]
+    futures_gen.binding_demo(ctx, "futures", "Trace_CoroLang", "Trace_CoroLang.cfg", traces, corrupt)
     ctx._phase("validate", t0)
     ctx.cov["rule"] = ("paths: every program of the bounded grammar (top-level atoms and try/except/finally statements "
                        "with awaits, lists, dicts, moment, sub-coroutines, return, raise, context variable in every "
